@@ -391,6 +391,15 @@ pub fn replay(r: &serde_json::Value) {
         println!("daemon clock wrapper case {r}: rerun ./check C18 quick (it reads the system clock for its anchor; the relations checked do not depend on it)");
         return;
     }
+    if r["kind"] == "fine" {
+        println!("fine-frequency case {r}:");
+        for (sig, msg, rr) in fine_frequencies().1 {
+            if rr["p1"] == r["p1"] && rr["p2"] == r["p2"] && rr["step"] == r["step"] {
+                println!("VIOLATION {sig} :: {msg}");
+            }
+        }
+        return;
+    }
     let seq: Vec<Op> = serde_json::from_value(r["seq"].clone()).unwrap();
     let s: u128 = r["start_ns"].as_str().unwrap().parse().unwrap();
     println!("start {s} ns, ops {:?}", seq);
